@@ -96,6 +96,8 @@ def _per_file_lines(text, name):
 
 
 class FaultSpace(spaces.Space):
+    SINGLE_DELETION = False
+
     def __init__(self, tier):
         self.name = f"faults-{tier}"
         cases = []
